@@ -18,6 +18,14 @@ Generated domain
   (d) LABEL SPELLINGS: in half of the programs labels are renamed (definition and every reference, references in
       any case) to register, internal-memory register, mnemonic, directive / section, mnemonic-prefixed and
       number-like names (M.apply_label_names); a reference is only written where the tree's parser reads a symbol.
+  (e) ASSEMBLER CONFIGURATION (round 5): in ~28 % of the programs (and on the objects of ~40 % of the histories) the
+      assembler is not plain `Assembler()` but carries an overridden SECTION_BASE_ADDRESSES map (bases from a pool
+      of page starts, ROM-card style and unaligned / just-below-a-page-boundary addresses that no `.ORG` slot run
+      can reach) and / or DEFAULT_SECTION = data, set as a class attribute of a subclass, inherited by a subclass
+      of that subclass, or as an attribute of the object; the layout model starts from the overridden map.
+  (f) STRING PAYLOAD (round 5): 45 % of the escape-free defm strings contain 1..3 raw TAB / VT / FF characters at
+      drawn positions; such a statement is written at a drawn column (0..6 spaces, tabs, mixed, or behind a label
+      on the same line); its reference bytes are the statement assembled alone.
 Oracle: layout model (c10_model.layout) for label addresses and byte placement, per-instruction standalone
 equivalence, operand-field extraction for label references, page rule, history independence.
 """
@@ -40,7 +48,12 @@ RULE = ("programs drawn from the assembler grammar (labels in front of most stat
         "per-instruction standalone assembly and operand-field extraction; plus assemble() call histories. "
         "Non-trivial program = assembles (or is rejected by the page rule as predicted) and has >= 1 forward and "
         ">= 1 backward symbolic reference and (>= 2 sections used or a .ORG); non-trivial history = >= 1 valid "
-        "program re-assembled after another call on the same object. Distinct = distinct source text hashes.")
+        "program re-assembled after another call on the same object. Distinct = distinct source text hashes. "
+        "Round 5: ~28 % of the programs are assembled by a CONFIGURED assembler (section map and/or default section "
+        "overridden on a subclass / grandchild / the object; labels config*, non-trivial = "
+        "config-with-symbolic-reference) and 45 % of the plain defm strings carry raw TAB/VT/FF characters at a "
+        "drawn column (labels string-raw-whitespace*, non-trivial = ...-followed-in-its-section); histories mix "
+        "configured and plain objects (history-with-configured-object).")
 
 # .ORG origins: pairwise >= 0x800 apart and away from the section bases, so that runs (<= 40 statements of <= 48
 # bytes) can never overlap; several sit just below a 64 KiB boundary.
@@ -938,6 +951,14 @@ def run(ctx: Ctx) -> Report:
         "operand-less mnemonic (`JP XSC`) are not generated",
         "history verdicts compare with a fresh Assembler in the same process (module-level caches are already "
         "warm); error messages are compared on their first line",
+        "assembler configuration: SECTION_BASE_ADDRESSES ('sane defaults') and DEFAULT_SECTION are class attributes "
+        "the code reads through self, so a subclass or an object may override them; the model's layout then starts "
+        "from the overridden map / section. Only complete four-section maps (code = text base) with bases >= 0x800 "
+        "apart and away from every .ORG slot, and DEFAULT_SECTION in {code, data}, are generated; maps lacking a "
+        "section, user sections and mutation of the Assembler class itself are not",
+        "defm strings with raw TAB / VT / FF: the reference bytes are what the statement assembled alone (at column "
+        "0, plain Assembler) emits -- the same rule as for backslash sequences; CR and other control characters, "
+        "and non-ASCII characters, are not generated",
     ]
     if COVFUZZ:
         rep.assumptions.append(CF.ASSUMPTION)
